@@ -21,9 +21,9 @@ from prng import Rng
 from valtext import err_name
 
 ID = "C05"
-LEAN_MODULE = "RpycModel.Props.C05"
+LEAN_MODULE = "RpycModel.Props.C05All"   # C05 theorems + their composition with brine (Compose/EndToEnd.lean)
 NAMESPACE = "Rpyc.Props.C05"
-GEN = ["Wire.lean"]
+GEN = ["Wire.lean", "Brine.lean"]
 DRIVERS = ["drv_wire"]
 TRUSTED = [
     "modelled, not verified: zlib is an opaque pair (compress, decompress) with the single law "
